@@ -317,10 +317,20 @@ def rule_focus(tree, rule) -> set:
 def rule_cases(draw, root="q", max_modules=14):
     # an eighth of the cases are larger than the rest: up to 22 modules, 7 levels deep, batches of up to 5
     big = draw(st.integers(0, 7)) == 0
-    tree = draw(forests(root=root, max_modules=20 if big else max_modules, max_depth=6 if big else 4))
+    tiny = not big and draw(st.integers(0, 15)) == 0
+    if tiny:
+        # degenerate architectures: a single module, or a package with one module (every rule there has related sides)
+        tree = draw(trees(root=root, max_modules=2, min_modules=1))
+    else:
+        tree = draw(forests(root=root, max_modules=20 if big else max_modules, max_depth=6 if big else 4))
     n = 5 if big else 3
     # a fifth of the rules have a subject that is the same module as / above / below one of the objects
-    rule = draw(related_rule(tree, max_s=n, max_o=n)) if draw(st.integers(0, 4)) == 0 else draw(unrelated_rule(tree, max_s=n, max_o=n))
+    rule = draw(related_rule(tree, max_s=n, max_o=n)) if (tiny or draw(st.integers(0, 4)) == 0) else draw(unrelated_rule(tree, max_s=n, max_o=n))
+    if draw(st.integers(0, 7)) == 0:
+        # one name listed twice on one side (the implementation gets the longer list, the model the set)
+        side = draw(st.sampled_from(["subj", "obj"]))
+        if rule.get(side) and rule[side]["kind"] in KINDS:
+            rule[side]["dup"] = draw(st.integers(0, 4))
     imports = draw(import_relation(tree, focus=rule_focus(tree, rule)))
     spec = {"tree": tree, "imports": [list(e) for e in imports], "rule": rule}
     if not rule.get("anything") and draw(st.integers(0, 5)) == 0:
